@@ -156,6 +156,24 @@ class Dynamics(ProductSystem):
             if worst > 5.1e-4 and not pf1:
                 viol.append({"what": "velocity term of a junction's own equations differs from displacement / elapsed time by more than the 3-decimal rounding",
                              "detail": {"max_dev": worst, "frame": f, "times": times}})
+        # ... and the reported tensions are the certified non-negative optimum of (assembled matrix, that right-hand side)
+        if rec is not None and cfg["solver"] != "lsq_linear" and not viol:
+            with fsutil.ref_math():
+                A_fs, _ = RN.augment(r.M)
+                b_fs = rec["b"]
+                if A_fs.shape == rec["A"].shape and np.abs(A_fs - rec["A"]).max() <= 1e-12:
+                    lam = RN.best_multiplier(A_fs, b_fs, x)
+                    z = np.append(x, lam)
+                    if cfg["solver"] is None:
+                        ok = RN.kkt(A_fs, b_fs, z, 1e-8 * max(1.0, len(x)))["ok"]
+                    else:
+                        zr = RN.lawson_hanson(A_fs, b_fs)
+                        Rx, Rr = np.linalg.norm(A_fs @ z - b_fs), np.linalg.norm(A_fs @ zr - b_fs)
+                        ok = x.min() > -1e-6 and Rx ** 2 <= Rr ** 2 * (1 + 1e-4) + (1e-5 * len(x)) ** 2
+                    if not ok:
+                        viol.append({"what": "reported tensions are not the non-negative least-squares optimum of the assembled dynamic system", "detail": {"solver": cfg["solver"], "path": rec["path"]}})
+                else:
+                    viol.append({"what": "the system that was solved is not the assembled matrix with the mean-one row"})
         tags.append(cfg["which"])
         if cfg["times"] != "equal":
             tags.append("unequal_times")
